@@ -236,3 +236,16 @@ def rto_exp(ye, prec, n):
 def rnd_grid_eq(A, B):
     """componentwise equality of two rnd_at results (exp, c, inexact, carry)"""
     return A[0] == B[0] and A[1] == B[1] and A[2] == B[2] and A[3] == B[3]
+
+
+def rnd_grid(s, c, P, p, n, rm):
+    """
+    spec.real.rnd_at for a positive shift, with the grid spacing P (in units of the operand's last digit) as a
+    parameter: |x| = q*P + rho; returns (exp, c, inexact, carry).  rnd_at(x, p, n, rm) is rnd_grid with
+    P = pow2(n + 1 - x.exp)  (lemma L5_inst).
+    """
+    q = fdiv(c, P)
+    rho = fmod(c, P)
+    m = q + b2i(incr(rm, s, q, rho, P))
+    carry = rho != 0 and p is not None and bl(m) > p
+    return (ite(carry, n + 2, n + 1), ite(carry, fdiv(m, 2), m), rho != 0, carry)
